@@ -150,14 +150,14 @@ func c09GenTexts(r *RNG, tier string) []C09Spec {
 	add := func(tables []TableSpec) {
 		for _, ts := range tables {
 			n++
-			specs = append(specs, C09Spec{Table: ts, Shared: n%3 == 0, Perm: r.U64() % 1000003, Staged: n%8 == 1 && len(ts.Rows) <= 8})
+			specs = append(specs, C09Spec{Table: ts, Shared: n%3 == 0, Perm: r.U64() % 1000003, Staged: n%8 == 1 && len(ts.Rows) <= 8, ContentOnly: len(ts.Rows) > 2})
 		}
 	}
 	// (1) every byte value
 	var single []string
 	for b := 0; b < 256; b++ {
 		c := string([]byte{byte(b)})
-		single = append(single, c, "ab"+c, c+"ab", "l1\nz"+c)
+		single = append(single, c, "l1\nab"+c, c+"ab")
 	}
 	add(c09TextTables(single, 8, 16))
 	// (2) control byte + any byte, ending a line
@@ -212,7 +212,7 @@ func c09GenTexts(r *RNG, tier string) []C09Spec {
 }
 
 // c09ShrinkBig: a table of more than 12 cells is first cut in halves (rows,
-// then columns, the header dropped, the single-table render mode) - the
+// then columns, the header dropped, no long-lived wrappers) - the
 // one-step reductions of shrinkTable are as many as the table has cells and
 // each as large as the table, which for the tables of the content streams is
 // quadratic; they take over once the table is small.
@@ -234,7 +234,7 @@ func c09ShrinkBig(sp C09Spec) []C09Spec {
 	var out []C09Spec
 	with := func(f func(c *C09Spec)) {
 		c := sp
-		c.Shared, c.Perm, c.Staged, c.Grow, c.TwoTables = false, 0, false, 0, false
+		c.Staged, c.Grow, c.TwoTables = false, 0, false // Shared stays: a failure may need the earlier renders of the same table
 		c.Table.Stages = nil
 		f(&c)
 		out = append(out, c)
